@@ -11,6 +11,7 @@ CONSTANTS
   Keys <- MC_Keys
   Deviations = {}
   CanonName = "itk"
+  Donated = 1
   Small = TRUE
 INIT Init
 NEXT Next
